@@ -302,3 +302,20 @@ def c02(ctx):
                     trace_module="Trace_C02", sigfn=V.default_sig,
                     assumptions=["TLC/SANY and the JVM", "AdaptationField/TsHeader specs (C01, C03)", "payload bytes used for SetPayload never equal 0xFF, so stuffing is distinguishable",
                                  "creation helpers are specified only by the fields the property names (sync, PID, counter, flags, payload prefix)"])
+
+
+# ---------------------------------------------------------------- C11
+
+@prop("C11", "Trace_C11")
+def c11(ctx):
+    V.mc(ctx, "MC_C11", workers=12)
+    summ = V.gen_traces(ctx, shards=12)
+    V.validate(ctx, "Trace_C11", summ, V.default_sig, par=12)
+    return V.finish(ctx, "model_checking",
+                    rule="MC: Ser and the decoder-side readings of Pes are inverse for all 256 stream ids x PTS_DTS_flags {0,2,3} x extra header bytes {0,1,3} x 4 timestamp values. "
+                         "B3: NewPESHeader on generated PES starts for all 256 stream ids x flags x PES_header_data_length 0..255 (extra optional/stuffing bytes) x boundary timestamps x data sizes; "
+                         "packet.PESHeader / pes.AlignedPUSI on transport packets (with/without adaptation field, PUSI on/off, 1..7-byte payloads, wrong prefixes, no payload flag). "
+                         "TLC checks well-formedness of each input itself and every getter against Pes. class = (optional-header or not, stream id group, PTS_DTS_flags, header length bucket)",
+                    trace_module="Trace_C11", sigfn=V.default_sig,
+                    assumptions=["TLC/SANY and the JVM", "Timecodes (C04) for the 33-bit timestamps", "a PES start shorter than 7 bytes is outside the decoder's documented input domain",
+                                 "data_alignment_indicator is compared only for stream ids that carry the optional header"])
